@@ -32,6 +32,9 @@ LEVEL = "model_checking"
 TECHNIQUE = "explicit-state search over commit sequences (distinct uploaded-tree/new-tree pairs) with the real cmd_upload against a reference tree model"
 
 MARKER = ".bzr-upload.revid"
+# overwrite-back is an incremental upload too (towards the older revision)
+PHASE_CLASS = {"first-upload": "first-upload", "incremental": "incremental", "overwrite-back": "incremental",
+               "full-over-previous": "full-over-previous", "older-revision-without-overwrite": "older-revision-without-overwrite"}
 DONT_CARE = (".bzrignore", ".bzrignore-upload", MARKER)
 
 
@@ -193,17 +196,17 @@ def diff(exp, got, ign_left):
     return out
 
 
-def check(phase, remote, spec, revid, ignore, err, tag, report):
+def check(phase, remote, spec, revid, ignore, err, report):
     """Compare the remote with the tree; returns True when the oracle holds."""
     if err is not None:
-        report("%s:%s:%s%s" % (phase, err[0], err[1], tag), {"error": err[2]})
+        report(phase, "%s:%s" % (err[0], err[1]), None, err[2])
         return False
     got, marker, ign_left = remote_listing(remote, ignore)
     problems = diff(expected(spec, ignore), got, ign_left)
     if marker is None or marker[0] != "file" or marker[1] != revid:
         problems.append(("marker-is-not-the-uploaded-revision", MARKER))
     for what, p in problems[:1]:
-        report("%s:%s%s" % (phase, what, tag), {"path": p, "all": ["%s %s" % x for x in problems[:6]]})
+        report(phase, what, p, None, ["%s %s" % x for x in problems[:6]])
     return not problems
 
 
@@ -233,39 +236,49 @@ def run_pair(x, y, xops, yops, ignore, acc, audit=False):
     for r in (remote, remote2):
         shutil.rmtree(r, ignore_errors=True)
     os.mkdir(remote)
-    tag = (":symlink" if has_symlink_change(x, y) else "")
-    pre = "ign/" if ignore else ""
     detail = {"uploaded_tree_ops_from_base": list(xops), "then_commits": list(yops), "changes": M.n_changes(x, y),
               "ignore_file": ignore, "uploaded_tree": sorted(x), "new_tree": sorted(y)}
+    links = {p for t in (x, y) for p, e in t.items() if e.kind == "symlink"}
 
-    def report(sig, extra):
-        d = dict(detail)
-        d.update(extra)
-        acc.violation(pre + sig, d)
+    def report(phase, what, path=None, error=None, all_=None):
+        # labels: symlink = the failing path is/was a symlink or the failure is in the symlink code;
+        # ign = the failing path / message names an upload-ignored path
+        text = (path or "") + " " + (error or "")
+        sym = (path in links) or "symlink" in what or any(('"%s"' % l) in text or ("'%s'" % l) in text for l in links)
+        ign = ignore and any("ign" in part.strip("\"'").split("/") for part in text.split())
+        d = dict(detail, phase=phase, base_signature="%s%s:%s" % ("ign/" if ign else "", PHASE_CLASS[phase], what))
+        if path is not None:
+            d["path"] = path
+        if error:
+            d["error"] = error
+        if all_:
+            d["all"] = all_
+        sig = "%s%s:%s%s" % ("ign/" if ign else "", PHASE_CLASS[phase], what, ":symlink" if sym else "")
+        acc.keep(sig, d)
 
     acc.n += 1
     if M.n_changes(x, y) >= 2:
         acc.nt(M.canon_pair(x, y))
     mw.commit_spec(b, rx, [], x)
-    ok = check("first-upload", remote, x, rx, ignore, upload(w, remote), "", report)
+    ok = check("first-upload", remote, x, rx, ignore, upload(w, remote), report)
     acc.count("uploads")
     if not ok:
         return
     shutil.copytree(remote, remote2, symlinks=True)
     mw.commit_spec(b, ry, [rx], y)
-    ok = check("incremental", remote, y, ry, ignore, upload(w, remote), tag, report)
+    ok = check("incremental", remote, y, ry, ignore, upload(w, remote), report)
     acc.count("uploads")
     acc.outcomes.add(("incremental", ok))
     if ok:
         # the remote is now ahead of the requested revision: refused without --overwrite ...
         err = upload(w, remote, revid=rx)
         if err is None or err[0] != "DivergedUploadedTree":
-            report("older-revision-without-overwrite:not-refused", {"got": err})
+            report("older-revision-without-overwrite", "not-refused", None, repr(err))
         # ... and brought back with it
-        ok2 = check("overwrite-back", remote, x, rx, ignore, upload(w, remote, overwrite=True, revid=rx), tag, report)
+        ok2 = check("overwrite-back", remote, x, rx, ignore, upload(w, remote, overwrite=True, revid=rx), report)
         acc.count("uploads", 2)
         acc.outcomes.add(("overwrite-back", ok2))
-    okf = check("full-over-previous", remote2, y, ry, ignore, upload(w, remote2, full=True), tag, report)
+    okf = check("full-over-previous", remote2, y, ry, ignore, upload(w, remote2, full=True), report)
     acc.count("uploads")
     acc.outcomes.add(("full", okf))
     if n % 25 == 0:
@@ -275,8 +288,34 @@ def run_pair(x, y, xops, yops, ignore, acc, audit=False):
         _reset_world()
 
 
+class Acc(par.Acc):
+    """keeps the smallest failing pair per signature (par.Acc keeps only the first 200 violations)"""
+
+    def __init__(self):
+        super().__init__()
+        self.best = {}
+
+    @staticmethod
+    def key(d):
+        return (len(d["uploaded_tree_ops_from_base"]) + len(d["then_commits"]), d["changes"],
+                d["uploaded_tree_ops_from_base"], d["then_commits"], d["phase"])
+
+    def keep(self, sig, d):
+        self.count("violations_raw")
+        k = self.key(d)
+        if sig not in self.best or k < self.best[sig][0]:
+            self.best[sig] = (k, d)
+
+    def merge(self, other):
+        super().merge(other)
+        for sig, (k, d) in getattr(other, "best", {}).items():
+            if sig not in self.best or k < self.best[sig][0]:
+                self.best[sig] = (k, d)
+        return self
+
+
 def _work(chunk):
-    acc = par.Acc()
+    acc = Acc()
     for i, ignore, x, y, xops, yops in chunk:
         run_pair(x, y, xops, yops, ignore, acc)
         if i < 2:
@@ -291,20 +330,23 @@ def run(ctx):
     for ignore in (False, True):
         pairs, nx, nodes = enumerate_pairs(depth, ignore, True)
         if ignore:
-            pairs = [p for p in pairs if touches_ignored(p[0], p[1])]
+            pairs = [p for p in pairs if touches_ignored(p[0], p[1]) and (ctx.thorough or not p[2])]
         stats["ignore" if ignore else "plain"] = {"uploaded_states": nx, "pairs": len(pairs), "search_nodes": nodes}
         items.extend((i, ignore, x, y, xo, yo) for i, (x, y, xo, yo) in enumerate(pairs))
     # repositories opened by the library are kept alive by reference cycles through extension objects;
     # a fresh worker pool per slice bounds the memory of a worker
-    acc = par.Acc()
+    acc = Acc()
     for lo in range(0, len(items), 6400):
-        acc.merge(par.merge(par.pmap(_work, items[lo:lo + 6400], seed=ctx.seed, chunks_per_job=4)))
+        for a in par.pmap(_work, items[lo:lo + 6400], seed=ctx.seed, chunks_per_job=4):
+            acc.merge(a)
+    # a ...:symlink signature whose unlabelled form also occurs is the same failure
+    plain = {sig for sig, (k, d) in acc.best.items() if sig == d["base_signature"]}
     best = {}
-    for sig, d in acc.violations:
-        key = (len(d["uploaded_tree_ops_from_base"]) + len(d["then_commits"]), d["changes"],
-               d["uploaded_tree_ops_from_base"], d["then_commits"])
-        if sig not in best or key < best[sig][0]:
-            best[sig] = (key, d)
+    for sig, (k, d) in acc.best.items():
+        if d["base_signature"] in plain:
+            sig = d["base_signature"]
+        if sig not in best or k < best[sig][0]:
+            best[sig] = (k, d)
     for sig in sorted(best):
         ctx.violation(sig, best[sig][1])
     ctx.assumptions.append("an upload is a function of (previously uploaded revision tree, new revision tree, remote directory); "
